@@ -417,6 +417,31 @@ func (ft *ftr) cellAt(r *root, path []int) (*cell, error) {
 	return c, nil
 }
 
+// leafCells creates the cells of every scalar / *big.Int leaf below path (a struct that is loaded as a whole).
+func (ft *ftr) leafCells(r *root, path []int, t types.Type) error {
+	st, ok := t.Underlying().(*types.Struct)
+	if !ok {
+		return fmt.Errorf("%s is not a struct", t)
+	}
+	for i := 0; i < st.NumFields(); i++ {
+		ft2 := st.Field(i).Type()
+		p2 := append(append([]int{}, path...), i)
+		if _, ok := ft2.Underlying().(*types.Struct); ok {
+			if err := ft.leafCells(r, p2, ft2); err != nil {
+				return err
+			}
+			continue
+		}
+		if _, ok := scalarOf(ft2); !ok {
+			return fmt.Errorf("whole-struct load of %s: field %s has unsupported type %s", t, st.Field(i).Name(), ft2)
+		}
+		if _, err := ft.cellAt(r, p2); err != nil {
+			return err
+		}
+	}
+	return nil
+}
+
 func (ft *ftr) touchRoot(b *ssa.BasicBlock, r *root) {
 	if ft.touch[b] == nil {
 		ft.touch[b] = map[*root]bool{}
@@ -489,7 +514,13 @@ func (ft *ftr) prepass() error {
 				if r, path, ok := ft.resolvePtr(ins.X); ok {
 					ft.touchRoot(b, r)
 					if _, isStruct := ins.Type().Underlying().(*types.Struct); isStruct {
-						return ft.refuse(ins, "whole-struct load from memory is outside the grammar")
+						if r.param >= 0 {
+							return ft.refuse(ins, "whole-struct load through a pointer parameter is outside the grammar")
+						}
+						if err := ft.leafCells(r, path, ins.Type()); err != nil {
+							return ft.refuse(ins, "%v", err)
+						}
+						continue
 					}
 					if _, err := ft.cellAt(r, path); err != nil {
 						return ft.refuse(ins, "%v", err)
